@@ -22,7 +22,7 @@ func init() {
 		Bounds: func(thorough bool) map[string]string {
 			h, p, u := "4", "6", "3"
 			if thorough {
-				h, p, u = "6", "8", "4"
+				h, p, u = "6", "8", "3"
 			}
 			return map[string]string{
 				"HostPort":      "host: every byte string of length 0.." + h + " without '[' and ']'; port: base in {0,10,90,100,990,1000,9990,10000,65530} plus an arbitrary last digit (every digit count and boundary)",
